@@ -37,7 +37,7 @@ func (a *ANSIFragmentFormatter) Format(f *Fragment, orderedTermLocations TermLoc
 		if termLocation == nil {
 			continue
 		}
-		if termLocation.Start < curr {
+		if termLocation.Start < curr || termLocation.End < termLocation.Start {
 			continue
 		}
 		if termLocation.End > f.End {
